@@ -50,17 +50,28 @@ def bodyOf? : Sexp → Option (BodyD × List (String × Span))
   | .atom "union" => some (.union, [])
   | _ => none
 
-def declOf? : Sexp → Option (DeclD × Options.DeclSpans)
-  | .list [.atom "decl", .str id, .str vis, .list [.atom "generics", tps, .str gt, .str wt], .list attrs, body, ilo, ihi] => do
-      let (b, spans) ← bodyOf? body
-      pure ({ ident := id, vis, generics := { typeParams := ← strs? tps, toks := gt, whereToks := wt },
-              attrs := ← attrs.mapM attrOf?, body := b },
-            { ident := ← mkSpan? ilo ihi, variantIdents := spans })
-  | _ => none
-
 def typeParamOf? : Sexp → Option TypeParamD
   | .list [.atom "typaram", .str id, .list attrs, bounds, dflt] => do
       pure { ident := id, attrs := ← attrs.mapM attrOf?, bounds := ← strs? bounds, default := ← optStr? dflt }
+  | .list [.atom "typaram", .str id, .list attrs, bounds, dflt, .str toks] => do
+      pure { ident := id, attrs := ← attrs.mapM attrOf?, bounds := ← strs? bounds, default := ← optStr? dflt, toks }
+  | _ => none
+
+def gparamOf? : Sexp → Option GParamD
+  | .list [.atom "tp", t] => (typeParamOf? t).map .type
+  | .list [.atom "lt", .str s] => some (.lifetime s)
+  | .list [.atom "ct", .str s] => some (.const s)
+  | _ => none
+
+def declOf? : Sexp → Option (DeclD × Options.DeclSpans)
+  | .list [.atom "decl", .str id, .str vis, .list (.atom "generics" :: tps :: .str gt :: .str wt :: rest), .list attrs, body, ilo, ihi] => do
+      let (b, spans) ← bodyOf? body
+      let params ← match rest with
+        | [.list (.atom "params" :: ps)] => ps.mapM gparamOf?
+        | _ => some []
+      pure ({ ident := id, vis, generics := { typeParams := ← strs? tps, toks := gt, whereToks := wt, params },
+              attrs := ← attrs.mapM attrOf?, body := b },
+            { ident := ← mkSpan? ilo ihi, variantIdents := spans })
   | _ => none
 
 def traitOf? : Sexp → Option Options.Trait
